@@ -182,8 +182,10 @@ def compute_wigner_angles(
     z_y = ArraySlice(wigner_rotation_matrix, (slice(None), 3, 2))
     z_z = ArraySlice(wigner_rotation_matrix, (slice(None), 3, 3))
     suffix = get_helicity_suffix(topology, state_id)
-    alpha, beta, gamma = sp.symbols(
-        f"alpha{suffix} beta{suffix} gamma{suffix}", real=True
+    # not sp.symbols(): the suffix contains commas for decay chains with three or more
+    # nodes, which sp.symbols() interprets as a separator
+    alpha, beta, gamma = (
+        sp.Symbol(f"{name}{suffix}", real=True) for name in ("alpha", "beta", "gamma")
     )
     return {
         alpha: sp.atan2(z_y, z_x),
